@@ -75,6 +75,8 @@ SOURCES = [None, True, False, 0, 1, 2, -3, 10 ** 12, 0.0, 1.0, 2.5, -0.25, 3.0, 
            "abc", "[1, 2]", "[1]", "1,2", "a;b", '{"a": 1}', "a=1&b=2", "k=v", "(1, 2)", "2022-03-04", "2022-03-04 10:11:12", "2022-03-04T00:00:00",
            "2022-03-04 10:11:12.5+08:00", "10:11:12", "P1DT2H", "1 02:03:04", "123e4567-e89b-12d3-a456-426614174000", "r", "red",
            b"", b"7", b"2.5", b"abc", b"true", b"\xff\xfe", b"[1, 2]", bytearray(b"7"),
+           # undecodable bytes whose lenient decoding reads as a boolean word / a number / a null word
+           b"tr\xffue", b"\xfffalse", b"1\xfe", b"\x80no", b"2\xff.5", b"nu\xffll", b"\xff7",
            [], [1], ["7"], [1, 2], ["a", "b"], [[1]], [None], (), (1,), (1, 2), (1, 2, 3), {1}, {1, 2}, frozenset({1}), collections.deque([1, 2]),
            {}, {"a": 1}, {"a": 1, "b": 2}, {1: 2}, [("a", 1)], [{"a": 1}], [{"a": 1}, {"b": 2}],
            datetime.datetime(2022, 3, 4, 10, 11, 12), datetime.datetime(2022, 3, 4), datetime.date(2022, 3, 4), datetime.time(10, 11, 12),
@@ -174,7 +176,7 @@ def concretise(x):
     if k == "str":
         return x["s"]
     if k == "bytes":
-        return b"\xff" if x["s"] == "\\xff" else x["s"].encode()
+        return b"\xff" + x["s"][4:].encode() if x["s"].startswith("\\xff") else x["s"].encode()
     items = [concretise(i) for i in x["items"]]
     return {"list": list, "tuple": tuple, "set": set}[k](items)
 
